@@ -2382,7 +2382,21 @@ impl SctpInner {
 
             {
                 let mut received_queue = self.received_queue.lock();
-                received_queue.retain(|&tsn, _| tsn_gt(tsn, new_cumulative_tsn));
+                let mut freed = 0usize;
+                received_queue.retain(|&tsn, (_, chunk)| {
+                    let keep = tsn_gt(tsn, new_cumulative_tsn);
+                    if !keep {
+                        freed += chunk.len();
+                    }
+                    keep
+                });
+                if freed > 0 {
+                    let _ = self
+                        .used_rwnd
+                        .fetch_update(Ordering::Relaxed, Ordering::Relaxed, |u| {
+                            Some(u.saturating_sub(freed))
+                        });
+                }
             }
 
             // Advance SSNs for ordered streams
@@ -2414,8 +2428,42 @@ impl SctpInner {
                 }
             }
 
+            // Chunks buffered beyond the skipped ones may have become contiguous with the
+            // new cumulative point: deliver them now (as handle_data does) instead of
+            // leaving them until some later DATA chunk happens to arrive.
+            let mut to_process = Vec::new();
+            {
+                let mut received_queue = self.received_queue.lock();
+                loop {
+                    let next_tsn = new_cumulative_tsn.wrapping_add(1 + to_process.len() as u32);
+                    if let Some(entry) = received_queue.remove(&next_tsn) {
+                        to_process.push(entry);
+                    } else {
+                        break;
+                    }
+                }
+            }
+            for (p_flags, p_chunk) in to_process {
+                let chunk_len = p_chunk.len();
+                let next_tsn = self
+                    .cumulative_tsn_ack
+                    .load(Ordering::Relaxed)
+                    .wrapping_add(1);
+                self.process_data_payload(p_flags, p_chunk).await?;
+                self.cumulative_tsn_ack.store(next_tsn, Ordering::Relaxed);
+                let _ = self
+                    .used_rwnd
+                    .fetch_update(Ordering::Relaxed, Ordering::Relaxed, |u| {
+                        Some(u.saturating_sub(chunk_len))
+                    });
+            }
+
             self.timer_notify.notify_one();
         }
+
+        // RFC 3758 §3.6: a FORWARD-TSN is answered with a SACK (also when it is a duplicate:
+        // the sender is waiting for the cumulative ack to reach its advanced point).
+        self.schedule_sack_immediate();
 
         Ok(())
     }
